@@ -386,6 +386,41 @@ func main() {
 		o.Set("man.peersCap", "manifest/codec.go:decodeEdit", v, ok, "declared")
 	}
 	{
+		// man.nilPayloadOp: the raft-pointer and region arms of decodeEdit start with
+		// `if pos < len(data) {` (lt: a payload-less edit decodes to a nil payload) or
+		// `if pos <= len(data) {` (le: it decodes to an all-zero payload); both arms must agree.
+		v, ok := "", false
+		if de != nil {
+			clauses := mc.CaseClauses(deBody, "edit.Type")
+			ops := []string{}
+			for _, label := range []string{"EditRaftPointer", "EditRegion"} {
+				cc := clauses[label]
+				if cc == nil {
+					continue
+				}
+				for _, st := range cc.Body {
+					ifs, isIf := st.(*ast.IfStmt)
+					if !isIf {
+						continue
+					}
+					switch {
+					case ifs.Init == nil && eq(mc, ifs.Cond, "pos < len(data)"):
+						ops = append(ops, "lt")
+					case ifs.Init == nil && eq(mc, ifs.Cond, "pos <= len(data)"):
+						ops = append(ops, "le")
+					default:
+						ops = append(ops, "?")
+					}
+					break
+				}
+			}
+			if len(ops) == 2 && ops[0] == ops[1] && ops[0] != "?" {
+				v, ok = ops[0], true
+			}
+		}
+		o.Set("man.nilPayloadOp", "manifest/codec.go:decodeEdit", v, ok, "lt")
+	}
+	{
 		// man.frameAlloc (two sites: readEdit and manager.go:Verify)
 		mm := o.Load("manifest/manager.go")
 		re := mc.Func("readEdit")
@@ -711,14 +746,14 @@ open NoKV NoKV.Codec
 
 def codecCfg : CodecCfg :=
   { lockLenGuard := .%s, writeLenGuard := .%s, manUvarint := .%s, manReadBytes := .%s,
-    manPeersBounded := %s, manFrameBounded := %s, entryAllocBounded := %s,
+    manPeersBounded := %s, manFrameBounded := %s, manNilPayloadLt := %s, entryAllocBounded := %s,
     vsDecodeChecked := %s, raftLenGuard := .%s, parseTsMin := .%s, tsInverted := %s,
     cmpPrefixSuffix := %s, cfMarkerOk := %s }
 
 end NoKV.Generated.Codec
 `,
 		f["perc.lockLenGuard"], f["perc.writeLenGuard"], f["man.uvarint"], f["man.readBytes"],
-		b(f["man.peersCap"] == "bounded"), b(f["man.frameAlloc"] == "bounded"), b(f["entry.alloc"] == "bounded"),
+		b(f["man.peersCap"] == "bounded"), b(f["man.frameAlloc"] == "bounded"), b(f["man.nilPayloadOp"] == "lt"), b(f["entry.alloc"] == "bounded"),
 		b(f["vs.decodeGuard"] == "checked"), f["raft.lenGuard"], f["key.parseTsMin"], b(f["key.tsEnc"] == "maxminus"),
 		b(f["key.cmpShape"] == "prefix-then-suffix8"), b(f["key.cfMarker"] == "ff4346:2"))
 	o.Write(*jsonOut, *leanOut, lean)
